@@ -57,7 +57,7 @@ macro_rules! decrypt_stream {
     ($algorithm:ty, $plaintext:expr_2021, $key:expr_2021, $iv:expr_2021) => {{
         <$algorithm as KeyInit5>::new(&AeadArray::from(get_key_bytes($key)?))
             .decrypt(&AeadArray::from(get_iv_bytes($iv)?), $plaintext.as_ref())
-            .expect("key/iv sizes were already checked")
+            .map_err(|_| format!("Invalid input"))?
     }};
 }
 
@@ -100,10 +100,10 @@ fn decrypt(ciphertext: Value, algorithm: &str, key: Value, iv: Value) -> Resolve
         "AES-256-SIV" => decrypt_stream!(Aes256SivAead, ciphertext, key, iv),
         "CHACHA20-POLY1305" => ChaCha20Poly1305::new(&ChaChaKey::<ChaCha20Poly1305>::from(get_key_bytes(key)?))
             .decrypt(&ChaChaNonce::<ChaCha20Poly1305>::from(get_iv_bytes(iv)?), ciphertext.as_ref())
-            .expect("key/iv sizes were already checked"),
+            .map_err(|_| format!("Invalid input"))?,
         "XCHACHA20-POLY1305" => XChaCha20Poly1305::new(&ChaChaKey::<XChaCha20Poly1305>::from(get_key_bytes(key)?))
             .decrypt(&ChaChaNonce::<XChaCha20Poly1305>::from(get_iv_bytes(iv)?), ciphertext.as_ref())
-            .expect("key/iv sizes were already checked"),
+            .map_err(|_| format!("Invalid input"))?,
         "XSALSA20-POLY1305" => decrypt_stream!(XSalsa20Poly1305, ciphertext, key, iv),
         other => return Err(format!("Invalid algorithm: {other}").into()),
     };
